@@ -7,7 +7,7 @@ CLAIM = ("Presentation order and independence of members: the real reader + basi
 ASSUMPTIONS = ["thread interleavings: decided by the solver only on the decode path at the smallest bound (threads.decode2: two threads, one member of one byte each, all interleavings); beyond that the claim for concurrent readers rests on the absence of shared mutable library state (argument)",
                "members are abstract headers served by a stubbed parser; decoders are stubs with arbitrary results"]
 from C13 import HARNESSES as _C13H
-HARNESSES = [THREADS, pos(3)] + [h for h in _C13H if h["name"] == "skip.fallback"] + [rsm(2, 4, timeout=600), rsm(2, 5, timeout=900), rsm(3, 5, timeout=2400, tier="thorough")]
+HARNESSES = [THREADS, pos(3)] + [h for h in _C13H if h["name"] == "skip.fallback"] + [rsm(2, 4, timeout=600), rsm(2, 5, timeout=900), rsm(3, 6, timeout=900, dirs=True), rsm(3, 5, timeout=2400, tier="thorough")]
 
 # which header follows a skipped member must not depend on whether the member was read or skipped: skipping goes
 # straight to the source, so no member byte may still sit in the stream's lead-in buffer once a header has been read
